@@ -13,7 +13,8 @@ PROP = "C05"
 
 
 def s1_group(src, nmembers, times, max_faults, assignor):
-    cfg = {"member": {"auto_commit": True, "auto_commit_interval_ms": 150, "assignors": [assignor]}}
+    cfg = {"member": {"auto_commit": True, "auto_commit_interval_ms": 150, "assignors": [assignor], "max_poll_interval_ms": 300},
+           "extra_events": ("pause_poll",), "pause_for": 0.7}
     scenario, plan = GO.standard_scenario(src, cfg, nmembers, times, quiet=2.5,
                                           fault_apis=(11, 14, 12), max_fault_requests=4, max_faults=max_faults)
     res = groupsim.run_group(src, cfg, scenario)
